@@ -1,4 +1,171 @@
-//! C06 — correspondence cases for the Lean model `Rooc/Pre/Expand.lean`.
+//! C06 — correspondence cases for the Lean model `Rooc/Pre/Expand.lean`: the aggregation folds of
+//! `into_exp` (through small programs whose data is literal), `range`, `enumerate`, `zip`, the set
+//! functions (through the names of quantified constraints), `flatten_compound_variable` and
+//! `IterableKind::read` (direct calls).
 use crate::case::Case;
 use crate::rng::Rng;
-pub fn model_cases(_r: &mut Rng, _n: usize) -> Vec<Case> { vec![] }
+use crate::sx;
+use indexmap::IndexMap;
+use rooc::model_transformer::TransformerContext;
+use rooc::{GraphNode, IterableKind, Primitive, RoocParser};
+use std::panic::{catch_unwind, AssertUnwindSafe};
+
+fn compile(src: &str) -> Result<rooc::model_transformer::Model, String> {
+    match catch_unwind(AssertUnwindSafe(|| RoocParser::new(src.to_string()).parse_and_transform(vec![], &IndexMap::new()))) {
+        Ok(r) => r,
+        Err(_) => Err("panic".into()),
+    }
+}
+fn mk(req: String, imp: String, tags: &[&str], show: String) -> Case {
+    let mut c = Case::default();
+    c.nontrivial = imp.starts_with("(ok");
+    c.tags = tags.iter().map(|s| s.to_string()).collect();
+    c.tags.push("stream:expand-model".into());
+    c.show = format!("{}\n=> {}", show, imp);
+    c.req = req;
+    c.imp = imp;
+    c
+}
+fn err_class(e: &str) -> String {
+    // parse_and_transform renders the error: `[Variant] …`
+    match (e.find('['), e.find(']')) { (Some(a), Some(b)) if a < b => format!("(err {})", &e[a + 1..b]), _ => "(err ?)".into() }
+}
+
+fn fold_case(kind: &str, n: usize, scoped: bool) -> Case {
+    let logic = matches!(kind, "all" | "any" | "xor");
+    let v = if logic { "b" } else { "x" };
+    let agg = if scoped { format!("{}(i in 0..{}) {{ {}_i }}", kind, n, v) } else { format!("{}{{ {} }}", kind, (0..n).map(|i| format!("{}_{}", v, i)).collect::<Vec<_>>().join(", ")) };
+    let src = format!("min 1\ns.t.\n    {}{}\ndefine\n    x_i as Real(0, 9) for i in 0..8\n    b_i as Boolean for i in 0..8\n", agg, if logic { "" } else { " <= 1" });
+    let leaves = (0..n).map(|i| format!("(var \"{}_{}\")", v, i)).collect::<Vec<_>>().join(" ");
+    let req = format!("fold {} ({})", kind, leaves).replace("( ", "(");
+    let imp = match compile(&src) {
+        Ok(m) => format!("(ok {})", sx::exp(m.constraints()[0].lhs())),
+        Err(e) => err_class(&e),
+    };
+    mk(req, imp, &[&format!("fold:{}", kind), &format!("fold-size:{}", n.min(4)), if scoped { "fold-form:scoped" } else { "fold-form:block" }], src)
+}
+
+fn names_of(m: &rooc::model_transformer::Model) -> Vec<String> { m.constraints().iter().map(|c| c.name().to_string()).collect() }
+fn lit(i: i64) -> String { if i < 0 { format!("(0 - {})", -i) } else { i.to_string() } }
+fn arr(xs: &[i64]) -> String { format!("[{}]", xs.iter().map(|x| x.to_string()).collect::<Vec<_>>().join(", ")) }
+fn farr(xs: &[f64]) -> String { format!("[{}]", xs.iter().map(|x| crate::pre_gen::fmt_f64(*x)).collect::<Vec<_>>().join(", ")) }
+fn list_sx(xs: &[i64]) -> String { format!("({})", xs.iter().map(|x| x.to_string()).collect::<Vec<_>>().join(" ")) }
+
+/// the values a quantified constraint iterates over are read back from the constraint names `c_<v>…`
+fn iter_case(tag: &str, req: String, iter_src: &str, vars: &str, name_ix: &str, consts: &str) -> Case {
+    let src = format!("min 1\ns.t.\n    z >= 0\n    c{}: z >= 0 for {} in {}\n{}define\n    z as Real\n", name_ix, vars, iter_src, if consts.is_empty() { String::new() } else { format!("where\n{}", consts) });
+    let imp = match compile(&src) {
+        Ok(m) => { let rows: Vec<String> = names_of(&m).into_iter().skip(1).map(|n| format!("({})", n.split('_').skip(1).collect::<Vec<_>>().join(" "))).collect(); format!("(ok {})", rows.join(" ")).replace("(ok )", "(ok)") }
+        Err(e) => err_class(&e),
+    };
+    mk(req, imp, &[tag], src)
+}
+
+fn prim_ix(p: &Primitive) -> String {
+    match p {
+        Primitive::Number(x) => format!("(numtext {})", sx::q(&x.to_string())),
+        Primitive::Integer(i) => format!("(int {})", i),
+        Primitive::PositiveInteger(u) => format!("(pint {})", u),
+        Primitive::Boolean(b) => format!("(bool {})", b),
+        Primitive::String(s) => format!("(str {})", sx::q(s)),
+        Primitive::GraphNode(n) => format!("(node {})", sx::q(n.name())),
+        other => format!("(other {})", crate::pre_reflect::kind_sx(&other.get_type())),
+    }
+}
+
+#[derive(Clone)]
+enum T { Leaf(i64), Node(Vec<T>) }
+fn gen_tree(r: &mut Rng, depth: u32) -> T {
+    // homogeneous levels only: `IterableKind` cannot mix scalars and iterables
+    let n = r.below(4);
+    if depth == 0 { T::Node((0..n).map(|_| T::Leaf(r.range(0, 9))).collect()) } else { T::Node((0..n).map(|_| gen_tree(r, depth - 1)).collect()) }
+}
+fn tree_sx(t: &T) -> String { match t { T::Leaf(v) => format!("(leaf {})", v), T::Node(cs) => format!("(node{})", cs.iter().map(|c| format!(" {}", tree_sx(c))).collect::<String>()) } }
+fn tree_iter(t: &T) -> IterableKind {
+    match t {
+        T::Node(cs) => {
+            if cs.iter().all(|c| matches!(c, T::Leaf(_))) { IterableKind::Integers(cs.iter().map(|c| if let T::Leaf(v) = c { *v } else { 0 }).collect()) }
+            else { IterableKind::Iterables(cs.iter().map(tree_iter).collect()) }
+        }
+        T::Leaf(v) => IterableKind::Integers(vec![*v]),
+    }
+}
+fn prim_tree(p: &Primitive) -> String {
+    fn it(i: &IterableKind) -> String {
+        match i {
+            IterableKind::Integers(v) => format!("(node{})", v.iter().map(|x| format!(" (leaf {})", x)).collect::<String>()),
+            IterableKind::Iterables(v) => format!("(node{})", v.iter().map(|x| format!(" {}", it(x))).collect::<String>()),
+            _ => "(unsupported)".into(),
+        }
+    }
+    match p { Primitive::Undefined => "undefined".into(), Primitive::Integer(v) => format!("(leaf {})", v), Primitive::Iterable(i) => it(i), _ => "(unsupported)".into() }
+}
+
+pub fn model_cases(r: &mut Rng, n: usize) -> Vec<Case> {
+    let mut out = vec![];
+    // ---- folds: every kind × sizes 0..6, scoped and block forms
+    for kind in ["sum", "prod", "avg", "min", "max", "all", "any", "xor"] {
+        for k in 0..7 { out.push(fold_case(kind, k, true)); if k > 0 && kind != "sum" && kind != "prod" { out.push(fold_case(kind, k, false)); } }
+    }
+    for kind in ["min", "max", "avg", "abs", "all", "any", "xor"] { out.push(fold_case(kind, 1, false)); }
+    out.push(fold_case("abs", 2, false));
+    // ---- ranges (boundary pairs exhaustively, then random)
+    let mut pairs: Vec<(i64, i64)> = vec![];
+    for lo in -3..=3 { for hi in -3..=4 { pairs.push((lo, hi)); } }
+    for _ in 0..n / 8 { pairs.push((r.range(-20, 20), r.range(-20, 25))); }
+    for (lo, hi) in pairs {
+        for inc in [false, true] {
+            out.push(iter_case(if inc { "range:inclusive" } else { "range:exclusive" }, format!("range {} {} {}", lo, hi, inc),
+                &format!("{}{}{}", lit(lo), if inc { "..=" } else { ".." }, lit(hi)), "i", "_i", ""));
+        }
+    }
+    // ---- enumerate / zip / set functions over literal arrays
+    for _ in 0..n / 8 {
+        let a: Vec<i64> = (0..r.below(5)).map(|_| r.range(0, 9)).collect();
+        let b: Vec<i64> = (0..r.below(5)).map(|_| r.range(0, 9)).collect();
+        let c: Vec<i64> = (0..r.below(4)).map(|_| r.range(0, 9)).collect();
+        if !a.is_empty() { out.push(iter_case("enumerate", format!("enumerate {}", list_sx(&a)), "enumerate(A)", "(v, i)", "_v_i", &format!("    let A = {}\n", arr(&a)))); }
+        if !a.is_empty() && !b.is_empty() {
+            out.push(iter_case("zip:2", format!("zip {} {}", list_sx(&a), list_sx(&b)), "zip(A, B)", "(v, w)", "_v_w", &format!("    let A = {}\n    let B = {}\n", arr(&a), arr(&b))));
+            if !c.is_empty() { out.push(iter_case("zip:3", format!("zip {} {} {}", list_sx(&a), list_sx(&b), list_sx(&c)), "zip(A, B, C)", "(v, w, u)", "_v_w_u", &format!("    let A = {}\n    let B = {}\n    let C = {}\n", arr(&a), arr(&b), arr(&c)))); }
+            for f in ["union", "intersection", "difference"] {
+                out.push(iter_case(&format!("setfn:{}", f), format!("setfn {} {} {}", f, list_sx(&a), list_sx(&b)), &format!("{}(A, B)", f), "v", "_v", &format!("    let A = {}\n    let B = {}\n", arr(&a), arr(&b))));
+            }
+            // numbers compared by value across kinds: an integer array against a float array
+            let fb: Vec<f64> = b.iter().map(|x| *x as f64 + if r.chance(1, 4) { 0.5 } else { 0.0 }).collect();
+            let req = format!("setfn-mixed intersection {} ({})", list_sx(&a), fb.iter().map(|x| sx::num(*x)).collect::<Vec<_>>().join(" "));
+            out.push(iter_case("setfn:mixed-kinds", req, "intersection(A, B)", "v", "_v", &format!("    let A = {}\n    let B = {}\n", arr(&a), farr(&fb))));
+        }
+    }
+    // ---- flatten_compound_variable (direct)
+    let ctx = TransformerContext::default();
+    let frag_pool: Vec<Primitive> = vec![Primitive::Integer(0), Primitive::Integer(-7), Primitive::Integer(12), Primitive::Integer(3), Primitive::PositiveInteger(23), Primitive::PositiveInteger(1),
+        Primitive::Number(1.0), Primitive::Number(2.5), Primitive::Number(-0.0), Primitive::Number(1e21), Primitive::Number(1e-7), Primitive::Number(f64::NAN), Primitive::Number(f64::INFINITY),
+        Primitive::Boolean(true), Primitive::Boolean(false), Primitive::String("a".into()), Primitive::String("a_b".into()), Primitive::String("".into()), Primitive::String("1".into()), Primitive::String("T".into()),
+        Primitive::GraphNode(GraphNode::new("A".into(), vec![])), Primitive::Undefined, Primitive::Iterable(IterableKind::Integers(vec![1])), Primitive::Tuple(rooc::Tuple::new(vec![]))];
+    for i in 0..n / 2 {
+        let k = if i < 30 { i % 4 } else { 1 + r.below(3) };
+        let frags: Vec<Primitive> = (0..k).map(|_| r.pick(&frag_pool).clone()).collect();
+        let name = r.pick(&["x", "y_1", "", "$abs"]).to_string();
+        let imp = match ctx.flatten_compound_variable(&name, &frags) {
+            Ok(s) => format!("(ok {})", sx::q(&s)),
+            Err(e) => { let d = format!("{:?}", e.base_error()); format!("(err {})", d.split(|c: char| !c.is_alphanumeric()).next().unwrap_or("")) }
+        };
+        let req = format!("flatten {} ({})", sx::q(&name), frags.iter().map(prim_ix).collect::<Vec<_>>().join(" "));
+        out.push(mk(req.clone(), imp, &["flatten"], req));
+    }
+    // ---- IterableKind::read (direct)
+    for _ in 0..n / 2 {
+        let dd = r.below(3) as u32; let t = gen_tree(r, dd);
+        let k = r.below(4);
+        let idx: Vec<usize> = (0..k).map(|_| r.below(4)).collect();
+        let imp = match catch_unwind(AssertUnwindSafe(|| tree_iter(&t).read(idx.clone()))) {
+            Ok(Ok(p)) => format!("(ok {})", prim_tree(&p)),
+            Ok(Err(e)) => { let d = format!("{:?}", e.base_error()); format!("(err {})", d.split(|c: char| !c.is_alphanumeric()).next().unwrap_or("")) }
+            Err(_) => "(panic)".into(),
+        };
+        let req = format!("read {} ({})", tree_sx(&t), idx.iter().map(|x| x.to_string()).collect::<Vec<_>>().join(" "));
+        out.push(mk(req.clone(), imp, &["read", &format!("read-depth:{}", k)], req));
+    }
+    out
+}
